@@ -25,7 +25,7 @@ func runThoroughExtras(r *Run, def *propertyDef, repo, tags string) {
 			r.Fatal("build configuration %s cannot be analysed: %v", c.name, err)
 			continue
 		}
-		sub := &Run{Property: r.Property, Tier: r.Tier, Prog: p, Root: r.Root, start: r.start}
+		sub := &Run{Property: r.Property, Tier: r.Tier, Prog: p, Root: r.Root, start: r.start, extra: map[string]interface{}{}}
 		def.run(sub)
 		bad := 0
 		for _, o := range sub.Obs {
